@@ -248,7 +248,29 @@ func (e *env) replay(bh []Step) int {
 	for i, st := range bh {
 		h := st.H
 		var bad bool
+		if st.Cs == "unspec" {
+			// a call on an object the property no longer describes (a clone after its Reset): executed for its
+			// effect on the OTHER handle only; its own outcome (bytes, errors, panics) is never judged
+			core.Try(func() {
+				buf := make([]byte, st.N)
+				switch st.Op {
+				case "Read":
+					_, _ = real[h].Read(buf)
+				case "Xor":
+					real[h].XORKeyStream(buf, buf)
+				case "Write":
+					_, _ = real[h].Write(dup(e.b.chunk(i+1, st.N)))
+				case "Reseed":
+					real[h].Reseed()
+				case "Reset":
+					real[h].Reset()
+				}
+			})
+		}
 		msg, stack, pan := core.Try(func() {
+			if st.Cs == "unspec" {
+				return
+			}
 			switch st.Op {
 			case "New":
 				sd := dup(e.b.seedBytes(st.N))
@@ -417,6 +439,9 @@ func Run(cfg Config, res *core.Result) error {
 			}
 			for _, st := range bh {
 				opCount[si][st.Op]++
+				if st.Cs == "unspec" {
+					opCount[si]["unspec"]++
+				}
 			}
 			for _, e := range envs {
 				n := e.replay(bh)
@@ -441,6 +466,8 @@ func Run(cfg Config, res *core.Result) error {
 			ops[k] += v
 		}
 	}
+	res.SetExtra("unspec_steps", ops["unspec"])
+	delete(ops, "unspec")
 	res.SetExtra("ops", ops)
 	res.AddExtra("steps_judged", tot)
 	res.SetExtra("impls", len(impls))
